@@ -420,6 +420,11 @@ def run(S):
                 S.violation('C12:' + lab, 'C12:%s at %s: %s' % (lab, info.get('site') or info.get('function'), w['what']), dict(api=w, model=info))
             else:
                 S.inconclusive.append('C12:%s (%r): no reproduction over the native corpus' % (lab, info))
+    else:
+        w = native_confirm(S)
+        S.validation['native_corpus'] = 'clean (%d sources x units 1..8)' % len(CORPUS) if not w else w['what']
+        if w:
+            S.inconclusive.append('C12: the native corpus shows a deviation the solver-decided data flow does not explain: %s' % w['what'])
     S.assumptions += [
         'pretty renders nest(n) as n additional blanks after each line break inside it (documented semantics); align/hang only in comment.rs',
         'MIR temporaries in the slices are single-assignment; slices through calls or multiple assignments are reported, not guessed',
@@ -468,6 +473,8 @@ CORPUS = [
     '#table(\n  columns: 2,\n  [a], [b],\n  [c], [d],\n)\n',
     '- a\n  - b\n    + c\n/ T: d\n  e\n= H\n',
     '#import "a.typ": (\n  x,\n  y,\n)\n#show: it => {\n  it\n}\n#let v = (\n  1\n    + 2\n)\n',
+    '#let v = a // c\n  + b\n', '#{\n  let v = aaa and // c\n    bbb\n}\n', '#let v = a + f(\n  1,\n) + (\n  2,\n)\n', '#f(a // c\n  + b)\n',
+    '#let w = a.b // c\n  .c()\n', '$ f(a, // c\n  b) $\n', '#let g = (x /* c */, // d\n  y) => x\n', '#{\n  x = a // c\n    * b\n}\n',
     '#let long = aaaaaaaaaaaaaaaaaaaaaaaaaaaaaa + bbbbbbbbbbbbbbbbbbbbbbbbbbbbbbbbbbbb + cccccccccccccccccccccccccccccccccccccc + dddddddddddddddddddddddddddddd\n',
 ]
 
